@@ -604,6 +604,7 @@ var intCells = []string{"0", "1", "-7", "007", "+3", "42", "9223372036854775807"
 	"18446744073709551617", "99999999999999999999", "36893488147419103232", "-18446744073709551615", "000000000009223372036854775808"}
 
 const wellFormedInts = 9
+
 var floatCells = []string{"2.5", "1e3", "-0", "inf", "-Inf", "+Inf", "NaN", "nan", ".5", "5.", "1e400", "0x1p-2", "4.9e-324", "1_0.5", "1,5", "Infinity", "1e-400"}
 var boolCells = []string{"true", "false", "T", "F", "1", "0", "TRUE", "False", "t", "f", "tRUE", "yes"}
 var nameCells = []string{"A", "B", "C", "A", "", "", "\ufeffid", "A0", "A1", "B0", "$x", `"q"`, "'q'", `"`, "''", " n", "col 1", "a,b", "x\ny", "\u00e5", "int"}
